@@ -18,6 +18,7 @@ from pyvc.core import And, Or, Not, Implies, Iff, If, Eq, In, Sym, binop, compar
 from pyvc import extract
 
 import experiment.model.codes as codes
+import experiment.model.errors
 import experiment.model.frontends.flowir as flowir_mod
 
 SR = flowir_mod.FlowIR.FieldStatusReport
@@ -124,7 +125,7 @@ class MonitorWeights(Target):
     name = 'StatusMonitor.__init__[weights]'
     file = 'python/experiment/runtime/output.py'
     qualname = 'StatusMonitor.__init__'
-    slice = ('fallbackWeight = 1.0', 'self.stageWeights = weights', True)
+    slice = ('stageNames = [stage.name for stage in self.experiment._stages]', 'self.stageWeights = weights', True)
     pure = ('FlowIR.stage_identifier_to_stage_index',)      # on concrete keys (real code, executed natively)
     max_paths = 400000
     float_sensitive = True
@@ -153,10 +154,20 @@ class MonitorWeights(Target):
             orders += [list(reversed(range(n))), list(range(1, n)) + [0]]
         order = orders[c.choice('insertion_order', len(orders))]
         report = {i: entries[i] for i in order}
-        this = Obj('statusmonitor', commands={('stage%d' % i): None for i in range(n)}, log=NULLLOG)
-        return State(kwargs={'self': this, 'status_report': report}, n=n, given=given, this=this, order=order)
+        # a STALE entry: the report mentions a stage index past the last stage of the workflow (inject_default_values does
+        # not touch it); _initJobs has created a status command slot for every entry of the report
+        stale = c.one_of('entry_for_a_stage_that_does_not_exist', ['none', 'without-weight', 'zero-weight', 'with-weight'])
+        if stale != 'none':
+            report[n] = {} if stale == 'without-weight' else {'stage-weight': 0.0 if stale == 'zero-weight' else 0.25}
+        this = Obj('statusmonitor', commands={('stage%d' % i): None for i in report}, log=NULLLOG,
+                   experiment=Obj('experiment', _stages=[Obj('stage%d' % i, name='stage%d' % i, index=i) for i in range(n)]))
+        return State(kwargs={'self': this, 'status_report': report}, n=n, given=given, this=this, order=order, stale=stale)
 
     def ensures(self, c, st, out):
+        if st.stale != 'none':
+            # a report that does not match the stages of the workflow is refused: its weights cannot be 'the weights of the stages'
+            return [('a-report-with-an-entry-for-a-missing-stage-is-refused',
+                     out.kind == 'raise' and out.raised(experiment.model.errors.ExperimentInvalidConfigurationError))]
         if out.kind == 'raise':
             return [('no-exception', False)]
         ws = st.this.stageWeights
@@ -173,6 +184,8 @@ class MonitorWeights(Target):
         return cl
 
     def cross_compare(self, sctx, sst, nctx, nst, model, concretize):
+        if not sst.this.has_field('stageWeights') or not nst.this.has_field('stageWeights'):
+            return []
         sw = concretize(list(sst.this.stageWeights), model)
         nw = list(nst.this.stageWeights)
         bad = len(sw) != len(nw) or any(abs(float(a) - float(b)) > 1e-6 for a, b in zip(sw, nw))
